@@ -420,6 +420,22 @@ def member_list_map(ctx, holder_qual: str) -> Dict[str, Set[str]]:
     """For a holder class whose __init__ sorts members by isinstance into lists:
     list attribute -> set of element class quals."""
     out: Dict[str, Set[str]] = {}
+    # by evaluation on samples where that is possible (the filing may be written in any way), by structure otherwise
+    try:
+        g, aa = ctx.grammar, ctx.actions
+        mrule = g.class_rule(holder_qual)
+        alts = _flatten_alt(mrule.children[0], ("Or", "MatchFirst")) if mrule.children else []
+        kinds = sorted({q for a in alts for q in aa.constructed_classes(_action_of(g, a).action)})
+    except (AnalysisError, AttributeError, IndexError):
+        kinds = []
+    ev_ = members_by_evaluation(ctx, holder_qual, kinds) if kinds else None
+    if ev_ is not None:
+        for attr, v in ev_[1].items():
+            for x in v:
+                if isinstance(x, dict) and "kind" in x:
+                    out.setdefault(attr, set()).add(x["kind"])
+        if out:
+            return out
     for k, attr, _ in member_dispatch(ctx, holder_qual):
         out.setdefault(attr, set()).add(k.qual)
     return out
